@@ -92,7 +92,9 @@ PyInt(t) == LET u == Strip(t)
 
 LowerOf(t) == [k \in 1..Len(t) |-> ToLower(t[k])]
 IsPrefix(a, u) == Len(a) <= Len(u) /\ SubSeq(u, 1, Len(a)) = a
-\* a confirmation pattern [ci, alts, whole] stands for the regex  (?i)? ^(alt|alt..) $?   (alts lower-case if ci)
+\* a confirmation pattern [ci, alts, whole, anch] stands for the regex  (?i)? ^?(alt|alt..) $?   (alts lower-case if ci).
+\* "matching its pattern" is matching at the START of the text, as re.match does - with or without a "^" in the
+\* pattern (anch says whether the driver writes one): text that holds the pattern only later does not match.
 Match(pat, t) == LET u == IF pat.ci THEN LowerOf(t) ELSE t
                  IN \E j \in 1..Len(pat.alts) : IF pat.whole THEN u = pat.alts[j] ELSE IsPrefix(pat.alts[j], u)
 
@@ -103,6 +105,25 @@ Count(cs, e) == Cardinality({k \in 1..Len(cs) : cs[k] = e})
 DefaultVal(qq) == IF qq.kind = "confirm" THEN VBool(qq.defB) ELSE IF qq.hasDef THEN VStr(qq.def) ELSE VNone
 \* a typed line is trimmed; an empty line stands for the default
 Entry(qq, line) == LET t == Strip(line) IN IF t = <<>> THEN DefaultVal(qq) ELSE VStr(t)
+
+\* ------------------------------------------------------------------ the I/O a dialogue meets, however it got there
+\* A route is the sequence of BufferedIO calls made before ask(): [op, ls (typed lines), b]
+\*   "ctor" BufferedIO(ls)   "set_input" io.set_input(ls)   "stream_set" io.input.stream.set(ls)        - replace the input
+\*   "append_input" io.append_input(ls)   "stream_append" io.input.stream.append(ls)                  - add to it
+\*   "clear_input" io.clear_input()   "io_inter" io.set_interactive(b)   "input_inter" io.input.set_interactive(b)
+\* Loading input never changes whether the user may be asked; the last interaction call decides.
+RECURSIVE EnvScript(_)
+EnvScript(r) == IF r = <<>> THEN <<>>
+                ELSE LET o == r[Len(r)]
+                         p == EnvScript(SubSeq(r, 1, Len(r) - 1))
+                     IN IF o.op \in {"ctor", "set_input", "stream_set"} THEN o.ls
+                        ELSE IF o.op \in {"append_input", "stream_append"} THEN p \o o.ls
+                        ELSE IF o.op = "clear_input" THEN <<>> ELSE p
+RECURSIVE EnvInter(_)
+EnvInter(r) == IF r = <<>> THEN TRUE
+               ELSE IF r[Len(r)].op \in {"io_inter", "input_inter"} THEN r[Len(r)].b
+               ELSE EnvInter(SubSeq(r, 1, Len(r) - 1))
+SetsInter(r) == \E k \in 1..Len(r) : r[k].op \in {"io_inter", "input_inter"}
 
 \* ================================================================== A-layer
 Good(v) == [ok |-> TRUE, val |-> v, cls |-> ""]
